@@ -397,6 +397,16 @@ def tableRows (ft : Bool) (root : Node) (es : List Edge) : List (Node × Style) 
   | some e0 =>
     if e0.tail == root then es.map fun e => (e.head, e.style) else es.map fun e => (e.tail, e.style)
 
+/-- `_make_graph_as_table`: the `rowspan` of the cell that holds the root ("the root node takes up one column
+    and spans all rows").  `fr = false`, the code as it is: `len(self.hop_nodes) * 2 + 1` - computed from the
+    *nodes* of the refused hop; `fr = true`, the code with fixes/C13-table-rootspan.diff: from its *edges*, which
+    are what the rows are written for.  The harness decides at run time which of the two the working tree is. -/
+def rootSpan (fr : Bool) (g : GState) : Nat :=
+  2 * (if fr then g.hopEdges.length else g.hopNodes.length) + 1
+
+/-- the `<tr>` elements the table consists of: two per kept edge (arrow shaft above / below) -/
+def tableTrs (g : GState) : Nat := 2 * g.hopEdges.length
+
 /-! ## `GraphManager` -/
 
 def maxList (d : Nat) (l : List Nat) : Nat := l.foldl max d
